@@ -13,13 +13,13 @@ _CLOSE = re.compile(rb"^\s*</(class-decl|union-decl)>\s*$")
 
 
 def strip_declonly_memfns(doc):
-    """(document without the <member-function> elements of declaration-only classes / unions, number of lines removed) -- a fact used only to
+    """(document without the <member-function> and <data-member> elements of declaration-only classes / unions, number of lines removed) -- a fact used only to
     classify a failing case (known finding C03-member-function-of-declaration-only-class)"""
     out, stack, removed, skipping = [], [], 0, False
     for ln in doc.splitlines():
         if skipping:
             removed += 1
-            if ln.strip() == b"</member-function>":
+            if ln.strip() == b"</" + skipping + b">":
                 skipping = False
             continue
         m = _OPEN.match(ln)
@@ -27,8 +27,9 @@ def strip_declonly_memfns(doc):
             stack.append(b"is-declaration-only='yes'" in m.group(2))
         elif _CLOSE.match(ln) and stack:
             stack.pop()
-        elif ln.strip().startswith(b"<member-function") and stack and stack[-1]:
-            skipping = not ln.strip().endswith(b"/>")
+        elif ln.strip().startswith((b"<member-function", b"<data-member")) and stack and stack[-1]:
+            # (skips to the matching end tag: neither element nests an element of its own kind)
+            skipping = ln.strip().split(None, 1)[0].lstrip(b"<").rstrip(b">") if not ln.strip().endswith(b"/>") else False
             removed += 1
             continue
         out.append(ln)
